@@ -324,6 +324,11 @@ func (d *Decoder) decodeRegisteredObject() Object {
 		return nil
 	}
 
+	if _, isEnum := enumCrcs[crc]; isEnum {
+		// enum value isn't a struct: it's a number of enum type, which is equal to its crc
+		return reflect.ValueOf(crc).Convert(_typ).Interface().(Object)
+	}
+
 	o := reflect.New(_typ.Elem()).Interface().(Object)
 
 	if m, ok := o.(Unmarshaler); ok {
